@@ -293,6 +293,10 @@ def c11_health(op, impl, model):
     if i[6] == 0 and (m[6] == 6009 or m[0] < m[1]):
         return (f"C11 the initial-margin check that ends a flash loan PASSES a portfolio whose exactly computed initial health is negative "
                 f"(engine: assets {i[0]} >= liabilities {i[1]}; exact: assets {m[0]} < liabilities {m[1]}): {op[:400]}")
+    if i[6] == 0 and m[6] not in (0, 6009, 6029):
+        return (f"C11 the initial-margin check that ends a flash loan PASSES a portfolio whose initial health cannot be established from the presented "
+                f"oracle data (exact evaluation fails with error {m[6]}: a DEBT price is stale / unauthentic / too uncertain and the debt was counted "
+                f"as nothing): whatever was borrowed inside the bracket from that bank stays unbacked: {op[:400]}")
     if i[6] == 0 and m[6] == 6029:
         return f"C11 the check that ends a flash loan passes a portfolio in which an isolated-tier debt is not the only debt: {op[:400]}"
     return None
